@@ -32,6 +32,8 @@ pub enum Stall {
     LoggedInSilent,
     /// floods status requests and never reads
     NotReading,
+    /// (rate limiting on) one address connects more often than its limit allows, so that it is refused at least once
+    OverLimit,
 }
 
 #[derive(Clone, Debug, Serialize, Deserialize)]
@@ -76,6 +78,21 @@ fn open_stallers(case: &Case, port: u16) -> Vec<NetClient> {
         let hs = Pkt::Handshake { protocol: 770, host: "stall.example.org".into(), port: 25565, next: 2 }.frame();
         let t = Duration::from_secs(3);
         match st {
+            Stall::OverLimit => {
+                // the limit is 2 per announced address with PROXY on, 50 for the peer address otherwise
+                let (n, ip) = if case.proxy { (4, "127.0.0.1") } else { (53, "127.0.0.3") };
+                drop(c);
+                for _ in 0..n {
+                    let Ok(stream) = net::connect_from(ip, port) else { continue };
+                    let Ok(mut x) = NetClient::from_stream(stream) else { continue };
+                    if case.proxy {
+                        let _ = x.write_raw(&header(true, port, 700));
+                    }
+                    let _ = x.write_raw(&hs[..hs.len() / 2]);
+                    held.push(x);
+                }
+                continue;
+            }
             Stall::Silent => {}
             Stall::InsideFirstMessage(frac) => {
                 let first = if case.proxy { h.clone() } else { hs.clone() };
@@ -137,7 +154,7 @@ fn one_run(case: &Case, with_stallers: bool) -> Option<Duration> {
         proxy: case.proxy.then_some((true, true)),
         // with PROXY on every client announces its own source address, so a small per-address budget must not
         // make the stalling clients matter to the well-behaved one; with PROXY off all come from 127.0.0.1
-        limiter: case.limiter.then_some((Duration::from_secs(1000), if case.proxy { 2 } else { 1000 })),
+        limiter: case.limiter.then_some((Duration::from_secs(1000), if case.proxy { 2 } else if case.stallers.contains(&Stall::OverLimit) { 50 } else { 1000 })),
         timeout: Duration::from_secs(30),
         ..Default::default()
     };
@@ -345,6 +362,7 @@ impl Check for C16 {
             2 => Just(Stall::MidLogin),
             1 => Just(Stall::LoggedInSilent),
             1 => Just(Stall::NotReading),
+            1 => Just(Stall::OverLimit),
         ];
         let crowd = (16u8..64, 100u16..400, 100u16..250, prop::bool::weighted(0.35)).prop_map(|(n, prefill_k, window_ms, fresh)| if fresh { Crowd { n: n.max(48), prefill_k: 1500 + prefill_k * 2, window_ms, fresh } } else { Crowd { n, prefill_k, window_ms, fresh } });
         (any::<bool>(), any::<bool>(), proptest::collection::vec(stall, 1..20), any::<bool>(), proptest::option::weighted(0.05, crowd))
@@ -368,7 +386,7 @@ impl Check for C16 {
         (v, info)
     }
     fn rule(&self) -> String {
-        "PROXY on/off x rate limiting on/off; 1-19 stalling clients, each stopping at a generated point (silent before the PROXY header, inside the header / first frame, mid-frame, after the handshake, mid-login, logged in and silent, flooding without reading); then one well-behaved client (valid v1 or v2 header if PROXY is on) performs a status exchange; in 5 % of the cases instead 16-63 well-behaved clients arrive in the same instant while the limiter's clean-up of 100k-400k idle addresses is due, and every one of them must be served. non-trivial = at least one client stalls before completing its PROXY header, or at least five stall elsewhere; distinct = distinct case".into()
+        "PROXY on/off x rate limiting on/off; 1-19 stalling clients, each stopping at a generated point (silent before the PROXY header, inside the header / first frame, mid-frame, after the handshake, mid-login, logged in and silent, flooding without reading, one address exceeding its rate limit); then one well-behaved client (valid v1 or v2 header if PROXY is on) performs a status exchange; in 5 % of the cases instead 16-63 well-behaved clients arrive in the same instant while the limiter's clean-up of 100k-400k idle addresses is due, and every one of them must be served. non-trivial = at least one client stalls before completing its PROXY header, or at least five stall elsewhere; distinct = distinct case".into()
     }
     fn assumptions(&self) -> Vec<String> {
         vec![
